@@ -148,6 +148,12 @@ const("geovalue_eq_variant", "versatiles_geometry/src/geo/value.rs", [
     (r"impl PartialEq for GeoValue \{\s*fn eq\(&self, other: &Self\) -> bool \{.{0,200}?\(Double\(a\), Double\(b\)\) => a\.to_bits\(\) == b\.to_bits\(\),\s*\(Float\(a\), Float\(b\)\) => a\.to_bits\(\) == b\.to_bits\(\),.{0,400}?impl Hash for GeoValue.{0,300}?GeoValue::Double\(v\) => v\.to_bits\(\)\.hash\(state\),\s*GeoValue::Float\(v\) => v\.to_bits\(\)\.hash\(state\),", 1),
 ], "1 = floats are compared and hashed by their bits (the model's tables compare bit patterns); 0 = derived PartialEq (== on floats: 0.0 = -0.0 with different hashes)")
 
+# ---- C17 TileJSON::merge, zoom range ----
+const("tj_merge_variant", "versatiles_core/src/tilejson/mod.rs", [
+    (r'pub fn merge\(&mut self, other: &TileJSON\).{0,600}?if let Some\(omin\) = other\.values\.get_byte\("minzoom"\) \{\s*let new_min = self\.values\.get_byte\("minzoom"\)\.map_or\(omin, \|mz\| mz\.min\(omin\)\);\s*self\.values\.insert\("minzoom", &JsonValue::from\(new_min\)\)\?;\s*\}\s*if let Some\(omax\) = other\.values\.get_byte\("maxzoom"\) \{\s*let new_max = self\.values\.get_byte\("maxzoom"\)\.map_or\(omax, \|mz\| mz\.max\(omax\)\);\s*self\.values\.insert\("maxzoom", &JsonValue::from\(new_max\)\)\?;\s*\}\s*// 4\. Merge everything else\s*for \(k, v\) in other\.values\.iter_json_values\(\) \{\s*if k != "minzoom" && k != "maxzoom" \{\s*self\.values\.insert\(&k, &v\)\?;', 1),
+    (r'pub fn merge\(&mut self, other: &TileJSON\).{0,900}?self\.values\.get_byte\((?:key|"minzoom")\)\.unwrap_or_default\(\)', 0),
+], "1 = a missing own minzoom/maxzoom is replaced by the other document's, else min/max of both; every other key of the other document overwrites; 0 = a missing own limit counts as 0")
+
 def main():
     out = ["(* GENERATED by tools/scrape_constants.py from /repo — do not edit *)",
            "From Coq Require Import NArith.", "Local Open Scope N_scope.", ""]
